@@ -133,6 +133,16 @@ def run_case(case, workdir, mode="C04"):
                 rec.exe([dh, muts, limit, coords], nontrivial=rb is not None, trans=2)
                 rec.count("ref_bad" if rb else "ref_ok")
                 rec.count("taste_accepts" if v_nofail == "good" else "taste_rejects")
+                if limit is None and not coords:
+                    import amr_kitchen.taste.cli as tcli
+                    from ..common import run_cli
+                    with vpool.controlled():
+                        c1 = run_cli(tcli.main, ["taste", mp, "-v", "0"])
+                        c2 = run_cli(tcli.main, ["taste", mp, "-v", "0", "-nf"])
+                    if rb is not None and c1[0] == "ok":
+                        rec.fail("cli_bad_not_reported", sub, "ref_bad: %s; 'taste <plotfile>' ended normally" % rb)
+                    if c2[0] != "ok":
+                        rec.fail("cli_nofail_raised", sub, "'taste -nf' ended with %s %s" % c2)
                 if rb is not None:
                     if v_fail != "raised":
                         rec.fail("bad_not_raised_in_failing_mode", sub, "ref_bad: %s; Taster(...) returned, bool=%s" % (rb, v_fail))
